@@ -52,6 +52,11 @@ Legal(sh, S) ==
         /\ p \in AllowedSubs(sh, e)
         /\ (e \in sh.abstract => p # {})
 
+(* The verdict is a function of the part set alone: in a file with several externally mapped instances, instance i  *)
+(* is created iff Legal(sh, parts[i]), whatever was read - created or refused - before it.  (C08 walks every        *)
+(* ordered pair of part sets of a shape through one reader process.)                                              *)
+HistoryFree(sh, parts, created) == \A i \in 1..Len(parts) : created[i] = Legal(sh, parts[i])
+
 (* ---- named deviations of the implementation (known findings; never part of the property) ---- *)
 (* Dev_RootAloneRefused: an externally mapped instance with a single part is refused by the matcher even when  *)
 (* that entity may be instantiated on its own                                                                   *)
